@@ -310,6 +310,12 @@ class SFix:
     __repr__ = __str__
 
 
+def opaque_placeholder(name):
+    """what an opaque text looks like once the code has turned it into a real str (formatting, join): it carries a backslash, a tab, both
+    quotes and a non-ASCII letter, so that escaping / normalising / re-encoding steps applied afterwards change it visibly"""
+    return '<text:%s \\ \t \' " \u00e9>' % name
+
+
 class SStr:
     """opaque symbolic text: arbitrary content, only its emptiness is visible to the code (as a solver
     branch).  Conversions through the shadowed int()/float() give Conv objects that remember
@@ -356,7 +362,7 @@ class SStr:
         raise Unsupported('len of opaque text')
 
     def __str__(self):
-        return '<text:%s>' % self.name
+        return opaque_placeholder(self.name)
     __repr__ = __str__
 
 
